@@ -25,6 +25,10 @@ type c09Case struct {
 
 var c09Alphabet = []byte{'[', ']', '{', '}', '"', ':', ',', ' ', '\\', 'n', 'u', 'l', '1', '-', '.', 'e'}
 
+// second alphabet: the literals true/false, a second digit, exponent sign, TAB/LF as white space
+var c09Alphabet2 = []byte{'[', ']', '{', '}', '"', ':', ',', '\n', 't', 'r', 'u', 'e', 'f', 'a', 'l', 's'}
+var c09Alphabet3 = []byte{'[', ']', '{', '}', '"', ':', ',', '\t', '0', '9', '+', 'E', '.', '-', '\\', '/'}
+
 func c09Check(c c09Case) vfResult {
 	full := []byte(c.H)
 	h := vfHeader(full, c.Limit)
@@ -82,7 +86,7 @@ func c09Check(c c09Case) vfResult {
 // c09Enumerate sweeps every string over the alphabet up to maxLen, in both modes.
 // Strings that do not start with ws*[[{] never enter the parser; they are evaluated through
 // the cheap direct calls only (Detect is run for the rest).
-func c09Enumerate(t *testing.T, maxLen int, onlyOpening bool) {
+func c09Enumerate(t *testing.T, c09Alphabet []byte, maxLen int, onlyOpening bool) {
 	sh, nsh := vfShard(), vfNShards()
 	na := len(c09Alphabet)
 	buf := make([]byte, maxLen)
@@ -102,7 +106,7 @@ func c09Enumerate(t *testing.T, maxLen int, onlyOpening bool) {
 			h := buf[:n]
 			// fast path: not even looking like an object or array
 			k := 0
-			for k < n && h[k] == ' ' {
+			for k < n && rIsWS(h[k]) {
 				k++
 			}
 			opening := k < n && (h[k] == '[' || h[k] == '{')
@@ -158,7 +162,7 @@ func c09Enumerate(t *testing.T, maxLen int, onlyOpening bool) {
 	}
 	vfStats.recordBulk(evals, nontriv)
 	vfStats.Exhaustive = true
-	vfStats.Subchecks["enum"] = fmt.Sprintf("all strings over the %d-symbol alphabet %q up to length %d%s, modes whole(limit 0) and truncated(limit=len); shard takes every %d-th index", na, string(c09Alphabet), maxLen, map[bool]string{true: " that open with ws*[[{]", false: ""}[onlyOpening], nsh)
+	vfStats.Subchecks["enum:"+string(c09Alphabet[7:10])] = fmt.Sprintf("all strings over the %d-symbol alphabet %q up to length %d%s, modes whole(limit 0) and truncated(limit=len); shard takes every %d-th index", na, string(c09Alphabet), maxLen, map[bool]string{true: " that open with ws*[[{]", false: ""}[onlyOpening], nsh)
 }
 
 var c09MutBytes = []byte{'[', ']', '{', '}', '"', ':', ',', ' ', '\\', 'n', 'u', 't', 'f', '1', '-', '.', 'e', 'a', '\n', 0x00, 0xff, '0'}
@@ -214,13 +218,19 @@ func TestVerif_C09(t *testing.T) {
 	if vfOnlySub("enum") {
 		vfRun(t, vfSub[c09Case]{Prop: "C09", Name: "enum", Check: c09Check})
 		if !vfReplayMode() && !t.Failed() {
-			if vfThorough() {
-				c09Enumerate(t, 6, false)
-				if !t.Failed() {
-					c09Enumerate(t, 8, true)
-				}
-			} else {
-				c09Enumerate(t, 6, false)
+			c09Enumerate(t, c09Alphabet, 6, false)
+			if !t.Failed() {
+				c09Enumerate(t, c09Alphabet2, 6, true)
+			}
+			if !t.Failed() {
+				c09Enumerate(t, c09Alphabet3, 6, true)
+			}
+			if vfThorough() && !t.Failed() {
+				c09Enumerate(t, c09Alphabet, 8, true)
+			}
+			if vfThorough() && !t.Failed() {
+				c09Enumerate(t, c09Alphabet2, 7, true)
+				c09Enumerate(t, c09Alphabet3, 7, true)
 			}
 		}
 	}
